@@ -29,7 +29,7 @@ static std::mt19937_64 rng;
 static long evals = 0, failures = 0;
 static std::map<std::string, double> worst;   // function -> max err / (eps * scale * conditioning)
 static std::map<std::string, long>   counts;  // informational counters
-static int failPrinted = 0;
+static std::map<std::string, int> failPrinted;   // per function: at most 8 lines each
 
 static Q qabs (Q x) { return x < 0 ? -x : x; }
 static Q qsqrt (Q x)
@@ -74,13 +74,13 @@ static void check (const std::string& fn, const char* cls, Q err, Q scale, doubl
     if (!(ratio <= c))
     {
         ++failures;
-        if (failPrinted++ < 60) printf ("C15-FAIL %s %s T=%s err/(eps*scale)=%.3g > %g in=%s\n", fn.c_str (), cls, tname<T> (), ratio, c, in.c_str ());
+        if (failPrinted[fn]++ < 8) printf ("C15-FAIL %s %s T=%s err/(eps*scale)=%.3g > %g in=%s\n", fn.c_str (), cls, tname<T> (), ratio, c, in.c_str ());
     }
 }
 static void flag (const std::string& fn, const char* cls, const char* tn, const std::string& what, const std::string& in)
 {
     ++failures;
-    if (failPrinted++ < 60) printf ("C15-FAIL %s %s T=%s %s in=%s\n", fn.c_str (), cls, tn, what.c_str (), in.c_str ());
+    if (failPrinted[fn]++ < 8) printf ("C15-FAIL %s %s T=%s %s in=%s\n", fn.c_str (), cls, tn, what.c_str (), in.c_str ());
 }
 
 static int  li (int lo, int hi) { return lo + (int) (rng () % (unsigned long) (hi - lo + 1)); }
@@ -318,16 +318,24 @@ template <class T> static void runPlaneXform ()
 }
 
 //------------------------------------------------------------------------------------------------ spheres
-template <class T> static void runSpheres ()
+template <class T> static void runSpheres (int far)
 {
-    IV cI = iv (4); long R = li (1, 5);
-    IV a0 = iv (6), a1 = iv (6);
+    // far class: sphere and line translated together AND scaled by a factor f in (1,2) with 12 / 30 dense fractional bits (every coordinate stays exactly
+    // representable but products of coordinates are not), so that the answers keep their relative size — the bounds stay
+    // relative to |pos - center| + radius — while an implementation that expands |pos - center|^2 loses them by cancellation.
+    // The oracle works from the exact values of the T inputs.
+    IV off = offsetOf (far);
+    IV cI = iadd (iv (4), off); long R = li (1, 5);
+    IV a0 = iadd (iv (6), off), a1 = iadd (iv (6), off);
     if (izero (isub (a1, a0))) return;
-    Sphere3<T> s (it<T> (cI), (T) R);
-    Line3<T>   l (it<T> (a0), it<T> (a1));
-    QV dq = unit (iq (isub (a1, a0))), v = iq (isub (a0, cI));
-    Q  B = 2 * dot (dq, v), C = dot (v, v) - (Q) (R * R), disc = B * B - 4 * C;
-    std::string in = fmt ({(double) cI.x, (double) cI.y, (double) cI.z, (double) R, (double) a0.x, (double) a0.y, (double) a0.z, (double) a1.x, (double) a1.y, (double) a1.z});
+    T f = far ? (sizeof (T) == 4 ? (T) (1 + 0xA53 / 4096.0) : (T) (1 + 0x2B5C3A7D / 1073741824.0)) : (T) 1;   // 12 / 30 fractional bits, dense pattern
+    Vec3<T> cT = it<T> (cI) * f, p0 = it<T> (a0) * f, p1 = it<T> (a1) * f;
+    T RT = (T) R * f;
+    Sphere3<T> s (cT, RT);
+    Line3<T>   l (p0, p1);
+    QV dq = unit (toQ (p1) - toQ (p0)), v = toQ (p0) - toQ (cT);
+    Q  B = 2 * dot (dq, v), C = dot (v, v) - (Q) RT * (Q) RT, disc = B * B - 4 * C;
+    std::string in = fmt ({(double) cT.x, (double) cT.y, (double) cT.z, (double) RT, (double) p0.x, (double) p0.y, (double) p0.z, (double) p1.x, (double) p1.y, (double) p1.z});
     T t = 0; Vec3<T> hit (T (0));
     bool ok = s.intersectT (l, t), ok2 = s.intersect (l, hit);
     if (ok != ok2) flag ("Sphere3.intersect", "agree", tname<T> (), "intersect and intersectT disagree", in);
@@ -347,13 +355,14 @@ template <class T> static void runSpheres ()
         else expect = false;
     }
     ++evals;
-    if (ok != expect) { flag ("Sphere3.intersectT", expect ? "hit" : "miss", tname<T> (), "decision differs from the exact answer away from tangency", in); return; }
+    if (ok != expect) { flag ("Sphere3.intersectT", far ? (expect ? "far-hit" : "far-miss") : (expect ? "hit" : "miss"), tname<T> (), "decision differs from the exact answer away from tangency", in); return; }
     if (ok)
     {
         Q sq = qsqrt (disc);
-        check<T> ("Sphere3.intersectT", "smallest-nonneg-root", qabs ((Q) t - ts), scale * (1 + scale / sq), 32, in);
-        check<T> ("Sphere3.intersect", "point", len (toQ (hit) - (iq (a0) + ts * dq)), scale * (1 + scale / sq), 32, in);
-        check<T> ("Sphere3.intersect", "on-sphere", qabs (len (toQ (hit) - iq (cI)) - (Q) R), scale * (1 + scale / sq), 32, in);
+        check<T> ("Sphere3.intersectT", far ? "far-smallest-nonneg-root" : "smallest-nonneg-root", qabs ((Q) t - ts), scale * (1 + scale / sq), 32, in);
+        Q sch = scale * (1 + scale / sq) + maxabs (toQ (p0));   // the point itself is rounded at the magnitude of its coordinates
+        check<T> ("Sphere3.intersect", far ? "far-point" : "point", len (toQ (hit) - (toQ (p0) + ts * dq)), sch, 32, in);
+        check<T> ("Sphere3.intersect", far ? "far-on-sphere" : "on-sphere", qabs (len (toQ (hit) - toQ (cT)) - (Q) RT), sch, 32, in);
     }
     // circumscribe
     IV lo = iv (4), hi = iadd (lo, IV{li (0, 5), li (0, 5), li (0, 5)});
@@ -472,7 +481,7 @@ template <class T> static void runAll (long n)
         runLines<T> (far);
         runPlanes<T> (far);
         runPlaneXform<T> ();
-        runSpheres<T> ();
+        runSpheres<T> (far);
         runTriangles<T> (far);
         runVecAlgo<Vec2<T>, 2> ("VecAlgo2");
         runVecAlgo<Vec3<T>, 3> ("VecAlgo3");
